@@ -31,7 +31,7 @@ var traceFuncs = map[string]bool{
 }
 
 type stats struct {
-	Files, GoStmts, ChanYields, BodyYields, DeepYields, SyncImports, Exits, FSCalls, Traces int
+	Files, GoStmts, ChanYields, BodyYields, DeepYields, SyncImports, Exits, FSCalls, Traces, ProcRewrites int
 }
 
 var st stats
@@ -78,8 +78,8 @@ func main() {
 		}
 	}
 	writeExports(root)
-	fmt.Printf("instr: files=%d go=%d chan_yields=%d body_yields=%d deep_yields=%d sync_imports=%d exits=%d fs=%d traces=%d\n",
-		st.Files, st.GoStmts, st.ChanYields, st.BodyYields, st.DeepYields, st.SyncImports, st.Exits, st.FSCalls, st.Traces)
+	fmt.Printf("instr: files=%d go=%d chan_yields=%d body_yields=%d deep_yields=%d sync_imports=%d exits=%d fs=%d traces=%d proc=%d\n",
+		st.Files, st.GoStmts, st.ChanYields, st.BodyYields, st.DeepYields, st.SyncImports, st.Exits, st.FSCalls, st.Traces, st.ProcRewrites)
 }
 
 type fileCtx struct {
@@ -224,6 +224,61 @@ func instrumentFile(root, rel string, isOwSim bool) error {
 		// keep the os import used
 		f.Decls = append(f.Decls, &ast.GenDecl{Tok: token.VAR, Specs: []ast.Spec{&ast.ValueSpec{
 			Names: []*ast.Ident{ast.NewIdent("_")}, Values: []ast.Expr{&ast.SelectorExpr{X: ast.NewIdent(c.osAlias), Sel: ast.NewIdent("Args")}}}}})
+	}
+
+	// pass 3b (cmd/ow-sim only): child processes and pipes.  os/exec.Command, io.Pipe, os.Stdin and
+	// log.Fatal* become their simulated counterparts (simrt/proc.go), types included.
+	if isOwSim {
+		alias := map[string]string{} // local name -> import path
+		for _, imp := range f.Imports {
+			p, _ := strconv.Unquote(imp.Path.Value)
+			if p == "io" || p == "os/exec" || p == "os" || p == "log" {
+				n := p[strings.LastIndex(p, "/")+1:]
+				if imp.Name != nil {
+					n = imp.Name.Name
+				}
+				alias[n] = p
+			}
+		}
+		rename := map[string]map[string]string{
+			"io":      {"Pipe": "IOPipe", "PipeWriter": "PipeWriter", "PipeReader": "PipeReader"},
+			"os/exec": {"Command": "Command", "Cmd": "Cmd"},
+			"os":      {"Stdin": "OSStdin"},
+			"log":     {"Fatal": "Fatal", "Fatalf": "Fatalf", "Fatalln": "Fatalln"},
+		}
+		keeper := map[string]string{"io": "EOF", "os/exec": "ErrNotFound", "os": "Args", "log": "Println"}
+		touched := map[string]bool{}
+		ast.Inspect(f, func(n ast.Node) bool {
+			sel, ok := n.(*ast.SelectorExpr)
+			if !ok {
+				return true
+			}
+			x, ok := sel.X.(*ast.Ident)
+			if !ok || x.Obj != nil {
+				return true
+			}
+			path, ok := alias[x.Name]
+			if !ok {
+				return true
+			}
+			if to, ok := rename[path][sel.Sel.Name]; ok {
+				touched[x.Name] = true
+				sel.X = ast.NewIdent(rtName)
+				sel.Sel = ast.NewIdent(to)
+				c.usedRT = true
+				st.ProcRewrites++
+			}
+			return true
+		})
+		var names []string
+		for n := range touched {
+			names = append(names, n)
+		}
+		sort.Strings(names)
+		for _, n := range names {
+			f.Decls = append(f.Decls, &ast.GenDecl{Tok: token.VAR, Specs: []ast.Spec{&ast.ValueSpec{
+				Names: []*ast.Ident{ast.NewIdent("_")}, Values: []ast.Expr{&ast.SelectorExpr{X: ast.NewIdent(n), Sel: ast.NewIdent(keeper[alias[n]])}}}}})
+		}
 	}
 
 	if c.usedRT {
@@ -571,6 +626,16 @@ func VerifSetFlags(f VerifFlagSet) {
 }
 
 func VerifRunSimulation(args []string) { run_simulation(args) }
+
+// VerifChildMain is the main function of a child process started through os/exec (simulated):
+// the flags are the ones the parent passes on the child's command line.
+func VerifChildMain(args []string) {
+	if len(args) >= 1 && args[0] == "-writer" {
+		run_writer(args[1:])
+		return
+	}
+	panic("ow-sim child started with an unsupported command line")
+}
 `
 		must(os.WriteFile(filepath.Join(root, "cmd", "ow-sim", "zz_verif_export.go"), []byte(src), 0644))
 	}
